@@ -6,7 +6,7 @@
     [Display for Value] behind to_string/concat, [ValueDisplay] behind the text printers); the error bound of the
     sketch is [Generated.ckms_error]. *)
 From Coq Require Import List ZArith NArith Bool String.
-From AG Require Import Generated Str F64 Sexp Regex_entry RegexStage_entry Ckms Ckms_entry DateFmt DatePaths DateFmt_entry DurFmt_entry.
+From AG Require Import Generated Str F64 Sexp Regex_entry RegexStage_entry Ckms Ckms_entry DateFmt DatePaths DateFmt_entry DurFmt_entry F64Display_entry.
 Import ListNotations.
 Open Scope string_scope.
 
@@ -51,6 +51,7 @@ Definition run_case2 (c : sexp) : sexp :=
       else if is_sym h "ckms" then ckms_case2 c
       else if is_sym h "datefmt" then datefmt_case c
       else if is_sym h "durfmt" then durfmt_case c
+      else if is_sym h "f64disp" then f64disp_case c
       else if is_sym h "datepath" then datepath_case c
       else run_case c
   | _ => run_case c
